@@ -111,6 +111,7 @@ def d2(cx: Cx, ob: Ob) -> None:
 
 @obligation("C10-D3", "OWN: no mutator of Converter is called on, and no store is made through, a converter parameter", floor=6)
 def d3(cx: Cx, ob: Ob) -> None:
+    shallow_converter_copies(cx, ob)
     for fn, ps in scope(cx, ob):
         o = Own(cx, fn, ps)
         ob.site(f"{fn.where} {fn.qualname}", f"converter inputs {ps}")
@@ -140,6 +141,23 @@ def d3(cx: Cx, ob: Ob) -> None:
                         tg2 = o.tag(recv[1])
                         if tg2 is not None and tg2[0] == "CB":
                             ob.violate(fn.qualname, where(fn, ev.line), f"{fn.name} mutates `{show(recv)[:40]}` of its converter input in place (.{name})", detail=f"mutate-state:{recv[2]}.{name}")
+
+
+def shallow_converter_copies(cx: Cx, ob: Ob) -> None:
+    """A shallow copy of a converter input must not escape: it shares every lookup table with the source."""
+    for fn, ps in scope(cx, ob):
+        o = Own(cx, fn, ps)
+        for t, ev, ctx in o.s.all_terms():
+            for c in subterms(t):
+                if op(c) == "call" and c[1] in (("ext", "copy.copy"), ("ext", "copy")) and c[2]:
+                    tg = o.tag(c[2][0])
+                    if tg is not None and tg[0] == "CB":
+                        ob.violate(
+                            fn.qualname,
+                            where(fn, ev.line),
+                            f"{fn.name} makes a shallow copy of its converter input `{tg[1]}`: prefix_map, synonym_to_prefix, reverse_prefix_map and the trie are shared, so adding to either converter changes the answers of the other",
+                            detail="shallow-converter-copy",
+                        )
 
 
 def check_no_aliasing(cx: Cx, ob: Ob) -> None:
